@@ -169,6 +169,22 @@ func New(opts ...Option) *Server {
 	return s
 }
 
+// securityEnabled returns true if the server has been
+// configured with the security policy and mode.
+func (s *Server) securityEnabled(policyURI string, mode ua.MessageSecurityMode) bool {
+	// a server without any EnableSecurity option keeps accepting
+	// unsecured channels, which is what it did before.
+	if len(s.cfg.enabledSec) == 0 {
+		return policyURI == ua.SecurityPolicyURINone && mode == ua.MessageSecurityModeNone
+	}
+	for _, sec := range s.cfg.enabledSec {
+		if sec.secPolicy == policyURI && sec.secMode == mode {
+			return true
+		}
+	}
+	return false
+}
+
 func (s *Server) Session(hdr *ua.RequestHeader) *session {
 	return s.sb.Session(hdr.AuthenticationToken)
 }
@@ -248,6 +264,7 @@ func (s *Server) Start(ctx context.Context) error {
 
 	// Register all service handlers
 	s.initHandlers()
+	s.cb.allowSecurity = s.securityEnabled
 
 	if s.url == "" {
 		s.url = defaultListenAddr
